@@ -928,6 +928,32 @@ func checkPadded(c padCase) ev.Outcome {
 			o.Err = fmt.Sprintf("PaddedCell(%v, %g).ShrinkToFit(bound of %v) = %v does not contain %v itself", a, c.Padding, d, r, d)
 			return o
 		}
+		// "smallest": the descendants whose bounds meet the rectangle are the cell, its
+		// edge and its vertex neighbours inside the ancestor (closed bounds touch; the
+		// next cells are a whole cell away, far more than the 1e-15 padding margin as
+		// long as cells are not tiny), so the result is their lowest common ancestor
+		if level <= 24 && c.Padding < 1e-9 {
+			lo, hi := d, d
+			for _, nb := range d.AllNeighbors(level) {
+				if a.Contains(nb) {
+					if nb < lo {
+						lo = nb
+					}
+					if nb > hi {
+						hi = nb
+					}
+				}
+			}
+			lca := a
+			if l, ok := lo.CommonAncestorLevel(hi); ok && l > al {
+				lca = d.Parent(l)
+			}
+			if r != lca {
+				o.Err = fmt.Sprintf("PaddedCell(%v, %g).ShrinkToFit(bound of %v) = %v (level %d), the smallest cell containing %v and its neighbours inside %v is %v (level %d)", a, c.Padding, d, r, r.Level(), d, a, lca, lca.Level())
+				o.Finding = "shrinktofit-not-smallest"
+				return o
+			}
+		}
 		for _, nb := range d.EdgeNeighbors() {
 			if a.Contains(nb) && !r.Contains(nb) {
 				o.Err = fmt.Sprintf("PaddedCell(%v, %g).ShrinkToFit(bound of %v) = %v (level %d) excludes the edge neighbour %v, whose bound touches the rectangle", a, c.Padding, d, r, r.Level(), nb)
